@@ -33,7 +33,8 @@ TARGETS = ["[[foo]]", "[[foo#sec]]", "[[sub/b]]", "[[missing]]", "[[bar.sh]]", "
            # page names that ARE a binary extension, and pages with two dots
            "[[pdf]]", "[[epub#sec]]", "[[png]]", "[[notes.pdf]]", "[[v1.2]]"]
 PLAIN = ["word", "and", "see", "x", "o", "P1", "240601", "-", "note:", "(aside)", "k::v", "#tag", "@ctx", "2024-01-01", "1200"]
-PREFIXES = ["- ", "o ", "o P1 ", "x P3 240601 ", "- 240601 ", "~ ", "< P0 ", "  * ", "", "# "]
+# also: bare indentation (a continuation line of a note: it has no ZID of its own, every ZID on it is a reference)
+PREFIXES = ["- ", "o ", "o P1 ", "x P3 240601 ", "- 240601 ", "~ ", "< P0 ", "  * ", "", "# ", "  ", "    "]
 
 
 def decorate(rng, t):
@@ -69,6 +70,8 @@ def spec_targets(line, is_zoq):
     """The property's reading: page/local/global/ref/named-URL links and non-primary ZIDs, in line order.
     The primary ZID is the ZID in identity position (after kind, priority and modify date)."""
     out, primary_seen, in_prefix = [], False, True
+    if line.startswith(" "):
+        primary_seen, in_prefix = True, False      # a continuation line has no ZID of its own
     for idx, w0 in enumerate(line.split(" ")):
         w = w0.strip("(),.?!;:")
         if re.fullmatch(r"\[\[[^\[\]]+\]\]|\[\^[^\]]+\]|\[#[^\]]+\]|\[@[^\]]+\]|\[![^\]]+\]", w):
@@ -96,6 +99,8 @@ def spec_targets(line, is_zoq):
 def spec_targets_without(line, is_zoq, dropped):
     """spec_targets minus the ZID targets at the given word positions"""
     out, primary_seen, in_prefix = [], False, True
+    if line.startswith(" "):
+        primary_seen, in_prefix = True, False      # a continuation line has no ZID of its own
     for idx, w0 in enumerate(line.split(" ")):
         w = w0.strip("(),.?!;:")
         if re.fullmatch(r"\[\[[^\[\]]+\]\]|\[\^[^\]]+\]|\[#[^\]]+\]|\[@[^\]]+\]|\[![^\]]+\]", w):
@@ -124,6 +129,8 @@ def spec_targets_without(line, is_zoq, dropped):
 def spec_target_positions(line, is_zoq):
     """word positions of the ZIDs that spec_targets counts as targets"""
     pos, primary_seen, in_prefix = set(), False, True
+    if line.startswith(" "):
+        primary_seen, in_prefix = True, False
     for idx, w0 in enumerate(line.split(" ")):
         w = w0.strip("(),.?!;:")
         if re.fullmatch(r"\[\[[^\[\]]+\]\]|\[\^[^\]]+\]|\[#[^\]]+\]|\[@[^\]]+\]|\[![^\]]+\]", w):
